@@ -253,3 +253,108 @@ Definition masked_fill (x mask : tens) (c : Q) : option tens :=
   if shape_eqb (tshape x) (tshape mask)
   then Some (mkTens (tshape x) (map2 (fun v m => if qtrue m then c else v) (tdata x) (tdata mask)))
   else None.
+
+(* ==================================================================================================== *)
+(* Log-domain values: the accept / reject bookkeeping of IndependentMetropolisHastingsEstimator.__call__    *)
+(* (_mc.py).  The quantities the code keeps are LOGARITHMS of non-negative rationals (density ratios,       *)
+(* uniforms); they are represented EXACTLY by the rational itself:                                          *)
+(*    LFin w  = log w  for w > 0      LNegInf = log 0 = -inf      LNaN = nan                                *)
+(* so that  log a - log b = log (a / b),  log a + log b = log (a b),  log a > log b  <->  a > b.           *)
+(* +inf is NOT representable (None).  IEEE: nan compares false; 0 * (+-inf) = nan; x + nan = nan.          *)
+(* ==================================================================================================== *)
+Inductive lv := LFin (w : Q) | LNegInf | LNaN.
+Record ltens := mkLT { lshape : list nat; ldata : list lv }.
+
+(* log of a density value w >= 0 (log_prob of an outcome of probability w; -inf outside the support) *)
+Definition lv_of_w (w : Q) : lv := if Qle_bool w 0 then LNegInf else LFin w.
+
+(* Tensor.log(): "Returns a new tensor with the natural logarithm of the elements of input."  log 0 = -inf, log of a
+   negative number = nan *)
+Definition lv_log (u : Q) : lv := if Qle_bool u 0 then (if Qeq_bool u 0 then LNegInf else LNaN) else LFin u.
+
+(* a - b.  None: +inf (finite - (-inf)), not representable *)
+Definition lsub (a b : lv) : option lv :=
+  match a, b with
+  | LNaN, _ | _, LNaN => Some LNaN
+  | LFin x, LFin y => Some (LFin (Qred (x / y)))
+  | LNegInf, LFin _ => Some LNegInf
+  | LNegInf, LNegInf => Some LNaN
+  | LFin _, LNegInf => None
+  end.
+
+(* a + b (no +inf among the operands) *)
+Definition ladd (a b : lv) : lv :=
+  match a, b with
+  | LNaN, _ | _, LNaN => LNaN
+  | LFin x, LFin y => LFin (Qred (x * y))
+  | LNegInf, _ | _, LNegInf => LNegInf
+  end.
+
+(* a > b *)
+Definition lgt (a b : lv) : bool :=
+  match a, b with
+  | LFin x, LFin y => q_gt x y
+  | LFin _, LNegInf => true
+  | _, _ => false
+  end.
+
+(* bool * x: True counts as 1, False as 0; 0 * finite = 0 (= log 1), 0 * -inf = nan *)
+Definition bmul (b : bool) (x : lv) : lv :=
+  if b then x else match x with LFin _ => LFin 1 | _ => LNaN end.
+
+Fixpoint all_some_lv (l : list (option lv)) : option (list lv) :=
+  match l with
+  | [] => Some []
+  | Some x :: r => option_map (cons x) (all_some_lv r)
+  | None :: _ => None
+  end.
+
+(* element-wise a - b / a + b on two log tensors of the same shape *)
+Definition lsub_t (a b : ltens) : option ltens :=
+  if shape_eqb (lshape a) (lshape b)
+  then option_map (mkLT (lshape a)) (all_some_lv (map (fun xy => lsub (fst xy) (snd xy)) (combine (ldata a) (ldata b))))
+  else None.
+Definition ladd_t (a b : ltens) : option ltens :=
+  if shape_eqb (lshape a) (lshape b)
+  then Some (mkLT (lshape a) (map (fun xy => ladd (fst xy) (snd xy)) (combine (ldata a) (ldata b))))
+  else None.
+
+(* a > b with a of shape (1, B...) and b of shape (B...) or of a's shape: "broadcastable" with the missing leading
+   dimension of size 1; the result has a's shape *)
+Definition lgt_t (a b : ltens) : option tens :=
+  if shape_eqb (lshape a) (lshape b) || shape_eqb (lshape a) (1%nat :: lshape b)
+  then Some (mkTens (lshape a) (map (fun xy => qbool (lgt (fst xy) (snd xy))) (combine (ldata a) (ldata b))))
+  else None.
+
+(* mask * x, mask a bool tensor of x's shape *)
+Definition bmul_t (m : tens) (x : ltens) : option ltens :=
+  if shape_eqb (tshape m) (lshape x)
+  then Some (mkLT (lshape x) (map (fun mx => bmul (qtrue (fst mx)) (snd mx)) (combine (tdata m) (ldata x))))
+  else None.
+
+(* ~mask: "torch.bitwise_not ... For bool tensors, it computes the logical NOT." *)
+Definition invert_t (m : tens) : tens := tmap (fun q => qbool (negb (qtrue q))) m.
+
+(* torch.where(condition, input, other): "Return a tensor of elements selected from either input or other, depending on
+   condition": out_i = input_i if condition_i else other_i; all three of one shape *)
+Definition where_t (m a b : tens) : option tens :=
+  if shape_eqb (tshape m) (tshape a) && shape_eqb (tshape a) (tshape b)
+  then Some (mkTens (tshape a) (map (fun mab => if qtrue (fst mab) then fst (snd mab) else snd (snd mab))
+                                   (combine (tdata m) (combine (tdata a) (tdata b)))))
+  else None.
+
+(* x[n] on a log tensor with >= 1 dimensions: the n-th slice along the first dimension *)
+Definition lrow (x : ltens) (n : Z) : option ltens :=
+  match lshape x with
+  | k :: sh => if ((0 <=? n)%Z && (n <? Z.of_nat k)%Z)%bool
+               then Some (mkLT sh (firstn (numel sh) (skipn (Z.to_nat n * numel sh) (ldata x))))
+               else None
+  | [] => None
+  end.
+
+Definition log_t (x : tens) : ltens := mkLT (tshape x) (map lv_log (tdata x)).
+
+(* Tensor.squeeze(0): "Returns a tensor with all specified dimensions of input of size 1 removed." (None: first size <> 1;
+   torch would return the tensor unchanged) *)
+Definition squeeze0 (x : tens) : option tens :=
+  match tshape x with 1%nat :: sh => Some (mkTens sh (tdata x)) | _ => None end.
